@@ -64,10 +64,10 @@ def to_xmlgen(m, preamble=PREAMBLE):
             edges.append({"src": e["src"], "dst": e["dst"], "controllable": None if e["ctrl"] == "" else e["ctrl"] == "true",
                           "select": e["sel"] or None, "guard": e["guard"] or None, "sync": e["sync"] or None,
                           "assign": e["asg"] or None, "prob": e["prob"] or None})
-        templates.append({"name": t["name"], "params": ", ".join(t["params"]) if t["params"] else None,
-                          "decl": "\n".join(t["ldecl"]) if t["ldecl"] else None, "locations": locs,
+        templates.append({"name": t["name"], "params": t.get("_params_text", ", ".join(t["params"]) if t["params"] else None),
+                          "decl": t.get("_ldecl_text", "\n".join(t["ldecl"]) if t["ldecl"] else None), "locations": locs,
                           "branchpoints": [{"id": b} for b in t["bps"]], "init": t["init"] or None, "edges": edges})
-    return {"decl": preamble + "".join(d + "\n" for d in m["gdecl"]), "templates": templates, "system": system_text(m)}
+    return {"decl": m.get("_decl_text", preamble + "".join(d + "\n" for d in m["gdecl"])), "templates": templates, "system": m.get("_system_text", system_text(m))}
 
 
 def system_text(m):
